@@ -1083,3 +1083,33 @@ Proof.
   repeat split; try assumption; try congruence.
   intros s Hs. symmetry. exact (Fs1 s Hs).
 Qed.
+
+(* send_pages to a sign whose recorded type is [t]: the size side conditions follow from the
+   type. *)
+Theorem closed_send_pages_typed : forall b a ps s t,
+  NoDup (map v_addr b) -> Forall VInv0 b -> target b a = Some s ->
+  receive_pixels_legal (v_state s) = true -> v_type s = Some t ->
+  Forall (fun p => p_w p = fst (dimensions t) /\ p_h p = snd (dimensions t)
+                   /\ nlen (p_bytes p)
+                      = total_bytes (fst (dimensions t)) (snd (dimensions t))) ps ->
+  N.of_nat (length ps) * (total_bytes (fst (dimensions t)) (snd (dimensions t)) / 16) < 65536 ->
+  exists b' s',
+    run_bus (send_pages a ps) b = (b', Done (v_style s)) /\ target b' a = Some s'
+    /\ v_pages s' = ps
+    /\ v_state s' = match v_style s with Manual => PageLoaded | Automatic => ShowingPages end
+    /\ v_type s' = Some t /\ (v_w s', v_h s') = dimensions t
+    /\ v_pending s' = [] /\ v_chunks s' = 0
+    /\ v_addr s' = a /\ v_style s' = v_style s
+    /\ Forall VInv0 b' /\ map v_addr b' = map v_addr b.
+Proof.
+  intros b a ps s t Hnd Hinv Ht Hlegal Hty Hps Hc.
+  pose proof (VInv0_type s t (target_VInv0 b a s Hinv Ht) Hty) as Hdim.
+  destruct (dims_ok' t) as (HT & Hw & Hh).
+  assert (Ew : v_w s = fst (dimensions t)) by (rewrite <- Hdim; reflexivity).
+  assert (Eh : v_h s = snd (dimensions t)) by (rewrite <- Hdim; reflexivity).
+  destruct (closed_send_pages b a ps s) as
+      (b' & s' & R & T & P & St & Ty & Dim & Pe & Ch & Ad & Fs & Inv & Map);
+    rewrite ?Ew, ?Eh; try assumption.
+  exists b', s'. rewrite Hdim in Dim. rewrite Hty in Ty.
+  repeat split; assumption.
+Qed.
